@@ -117,6 +117,10 @@ def strategy(tier):
         'part': st.just('transparency'), 'aio': st.booleans(),
         'mode': st.sampled_from(['development', 'production']),
         'read_only': st.booleans(), 'admin': st.booleans(),
+        # when the admin connects (None: before any application client) and
+        # leaves again (None: never)
+        'admin_at': st.one_of(st.none(), st.integers(0, 12)),
+        'admin_until': st.one_of(st.none(), st.integers(1, 20)),
         'coro': st.booleans(),
         'sc': scenario.server_scenario_st(tier).map(strip)})
     return st.one_of(gate, ro, tr, tr)
@@ -350,10 +354,26 @@ def _transparency(case):
         hooks = {}
         if case['admin']:
             ta = w.open()
-            w.send(ta, wire.CONNECT, '/admin')
-            w.h.settle()
+            st_ = {'on': False}
+
+            def admin_connect():
+                w.send(ta, wire.CONNECT, '/admin')
+                w.h.settle()
+                st_['on'] = True
+
+            def after_step(step):
+                if isinstance(step, int):
+                    if not st_['on'] and step == case.get('admin_at'):
+                        admin_connect()
+                    elif st_['on'] and step == case.get('admin_until'):
+                        w.send(ta, wire.DISCONNECT, '/admin')
+                        w.h.settle()
+                        st_['on'] = False
+                w.h.drain(w.t[ta])
+            if case.get('admin_at') is None:
+                admin_connect()
             w.h.drain(w.t[ta])
-            hooks['after_step'] = lambda step: w.h.drain(w.t[ta])
+            hooks['after_step'] = after_step
         return hooks
     plain, la = scenario.run_server_scenario(sc, aio=aio, coro=case['coro'])
     inst, lb = scenario.run_server_scenario(sc, aio=aio, coro=case['coro'],
